@@ -1,206 +1,10 @@
-(* Correspondence judges for the task-set layer (C02, C04, C05, C47): the implementation's trace / log under harness/vsched.h
-   (harness/h_taskset.cpp) vs. Model/TaskSetModel.v on the same schedule, the executable properties evaluated on the
-   implementation's own log, and the decisions of the real code under forced load vs. the regenerated Gen/GenTaskSet.v. *)
+(* Decisions of the real code under forced load (D) vs. the regenerated decision functions Gen/GenTaskSet.v (C02, C04, C47).  Everything that
+   does not depend on Gen (lockstep judges, implementation-only D checks) is in Model/TaskSetImplCheck.v. *)
 From Coq Require Import ZArith List Bool.
 From DV Require Import Base.MachInt Base.Sched Model.TaskSetModel Gen.GenTaskSet.
+From DV Require Export Model.TaskSetImplCheck.
 Import ListNotations.
 Local Open Scope Z_scope.
-
-Record lcase := LC {
-  l_u : setup; l_fuel : nat; l_sched : list Z;
-  i_trace : list (Z * Z);              (* implementation: (tid, site code) per step *)
-  i_res : list (list ev);              (* per thread, oldest first *)
-  i_sets : list (Z * Z * Z);           (* per set: outstanding, canceled, guard at the end *)
-  i_wr : Z; i_q : Z; i_status : Z }.
-
-Definition zpair_eqb (a b : Z * Z) : bool := (fst a =? fst b) && (snd a =? snd b).
-Definition ztrip_eqb (a b : Z * Z * Z) : bool := zpair_eqb (fst a) (fst b) && (snd a =? snd b).
-Fixpoint list_eqb {A} (eq : A -> A -> bool) (a b : list A) : bool :=
-  match a, b with
-  | [], [] => true
-  | x :: a', y :: b' => eq x y && list_eqb eq a' b'
-  | _, _ => false
-  end.
-
-Definition agrees (c : lcase) : bool :=
-  let '(s, tr, st) := run_ts (l_fuel c) (l_u c) (l_sched c) in
-  list_eqb zpair_eqb tr (i_trace c) && (status_code st =? i_status c) &&
-  list_eqb (list_eqb ztrip_eqb) (map (fun th => rev (res th)) (threads s)) (i_res c) &&
-  list_eqb ztrip_eqb (map (fun T => (outst (sets (sh s) T), b2z (canc (sets (sh s) T)), guard (sets (sh s) T))) (seq 0 (length (i_sets c)))) (i_sets c) &&
-  (wr (sh s) =? i_wr c) && (Z.of_nat (length (queue (sh s))) =? i_q c).
-
-(* ---------- the implementation's log ---------- *)
-Definition tag (e : ev) : Z := fst (fst e).
-Definition arg (e : ev) : Z := snd (fst e).
-Definition stamp (e : ev) : Z := snd e.
-Definition all_ev (c : lcase) : list ev := concat (i_res c).
-
-(* submitted tasks (id, set, stamp of the return of the scheduling call) *)
-Definition subs_of (e : ev) : list (Z * Z * Z) :=
-  if (tag e =? t_s) || (tag e =? t_sf) then [(arg e / 64, arg e mod 64, stamp e)]
-  else if (tag e =? t_bs) || (tag e =? t_bf) then
-    let n := arg e mod 64 in let bt := arg e / 64 in
-    map (fun j => (bt / 64 + Z.of_nat j, bt mod 64, stamp e)) (seq 0 (Z.to_nat n))
-  else [].
-Definition subs (c : lcase) : list (Z * Z * Z) := flat_map subs_of (all_ev c).
-Definition started (c : lcase) (k : Z) : bool := existsb (fun e => (tag e =? t_b) && (arg e =? k)) (all_ev c).
-Definition ended_by (c : lcase) (k w : Z) : bool :=
-  existsb (fun e => ((tag e =? t_e) || (tag e =? t_ee)) && (arg e =? k) && (stamp e <=? w)) (all_ev c).
-Definition count_starts (c : lcase) (k : Z) : nat := length (filter (fun e => (tag e =? t_b) && (arg e =? k)) (all_ev c)).
-
-(* completed waits of one thread: (set, stamp of the call, kind tag, result/exception, stamp of the return).  A completion event
-   closes the most recent open call on the same set (waits nest when a waiter executes a task that waits). *)
-Fixpoint close_wait (open : list (Z * Z)) (T : Z) : option (Z * list (Z * Z)) :=
-  match open with
-  | [] => None
-  | (T', st) :: r => if T' =? T then Some (st, r) else match close_wait r T with Some (x, r') => Some (x, (T', st) :: r') | None => None end
-  end.
-Fixpoint waits_of (l : list ev) (open : list (Z * Z)) : list (Z * Z * Z * Z * Z) :=
-  match l with
-  | [] => []
-  | e :: r =>
-      if tag e =? t_wc then waits_of r ((arg e, stamp e) :: open)
-      else if (tag e =? t_w) || (tag e =? t_tw) || (tag e =? t_rt) then
-        let T := arg e mod 64 in
-        match close_wait open T with
-        | Some (cst, open') => (T, cst, tag e, arg e / 64, stamp e) :: waits_of r open'
-        | None => waits_of r open
-        end
-      else waits_of r open
-  end.
-Definition waits (c : lcase) : list (Z * Z * Z * Z * Z) := flat_map (fun l => waits_of l []) (i_res c).
-
-(* C02 on the implementation's log: a completed wait / a tryWait that returned true is a barrier for every task of the set whose
-   scheduling call returned before the wait was called; no body starts twice *)
-Definition check_C02 (c : lcase) : bool :=
-  forallb (fun w =>
-    let '(T, cstamp, kind, r, wstamp) := w in
-    let complete := (kind =? t_w) || (kind =? t_rt) || ((kind =? t_tw) && (r =? 1)) in
-    let cancelled := (kind =? t_rt) || ((kind =? t_w) && (r =? 1)) in
-    negb complete ||
-    forallb (fun s => let '(k, T', sst) := s in
-               negb ((T' =? T) && (sst <=? cstamp)) ||
-               (if started c k then ended_by c k wstamp else cancelled)) (subs c)) (waits c) &&
-  forallb (fun s => let '(k, _, _) := s in Nat.leb (count_starts c k) 1) (subs c).
-
-(* C04 on the implementation's trace: a body call site of set T reached after the first canceled_ := true store of T must be
-   licensed by a canceled_ load of the same thread that precedes that store (only outstanding-loads of T in between).
-   Returns (violated, true) *)
-Definition is_body_site (i : Z) : bool := (i =? 3) || (i =? 5) || (i =? 6) || (i =? 8) || (i =? 9) || (i =? 12) || (i =? 29).
-Definition is_lic_site (i : Z) : bool := (i =? 1) || (i =? 11).
-Definition is_mid_site (i : Z) : bool := (i =? 2) || (i =? 24) || (i =? 26).
-Definition is_cstore_site (i : Z) : bool := (i =? 42) || (i =? 17).
-Fixpoint first_cstore (tr : list (Z * Z)) (T : Z) (idx : Z) : option Z :=
-  match tr with
-  | [] => None
-  | (_, code) :: r => if is_cstore_site (code / 64) && (code mod 64 =? T) then Some idx else first_cstore r T (idx + 1)
-  end.
-Definition cstore_of (c : lcase) (T : Z) : option Z :=
-  if nth (Z.to_nat T) (su_canc (l_u c)) false then Some 0 else first_cstore (i_trace c) T 1.
-Definition lic_get (m : list (Z * (Z * Z))) (t : Z) : option (Z * Z) :=
-  match find (fun p => fst p =? t) m with Some p => Some (snd p) | None => None end.
-Definition lic_set (m : list (Z * (Z * Z))) (t : Z) (v : option (Z * Z)) : list (Z * (Z * Z)) :=
-  let m' := filter (fun p => negb (fst p =? t)) m in
-  match v with Some x => (t, x) :: m' | None => m' end.
-Fixpoint scan_C04 (c : lcase) (tr : list (Z * Z)) (idx : Z) (m : list (Z * (Z * Z))) (viol known : bool) : bool * bool :=
-  match tr with
-  | [] => (viol, known)
-  | (t, code) :: r =>
-      let i := code / 64 in let T := code mod 64 in
-      if is_lic_site i then scan_C04 c r (idx + 1) (lic_set m t (Some (T, idx))) viol known
-      else if is_mid_site i then
-        scan_C04 c r (idx + 1) (match lic_get m t with Some (T', _) => if T' =? T then m else lic_set m t None | None => m end) viol known
-      else if is_body_site i then
-        let bad := match cstore_of c T with
-                   | None => false
-                   | Some cs => (cs <? idx) && negb (match lic_get m t with Some (T', l) => (T' =? T) && (l <? cs) | None => false end)
-                   end in
-        scan_C04 c r (idx + 1) (lic_set m t None) (viol || bad) known
-      else scan_C04 c r (idx + 1) (lic_set m t None) viol known
-  end.
-Definition check_C04 (c : lcase) : bool * bool := scan_C04 c (i_trace c) 1 [] false true.
-
-(* C05 on the implementation's trace and log: no (exception, set) is rethrown twice; a testAndResetException whose guard load
-   follows a completed capture (set.store not yet reset) goes on to move, reset and rethrow *)
-Fixpoint last_site (tr : list (Z * Z)) (code : Z) (idx upto : Z) (acc : Z) : Z :=
-  match tr with
-  | [] => acc
-  | (_, cd) :: r => if upto <=? idx then acc else last_site r code (idx + 1) upto (if cd =? code then idx else acc)
-  end.
-Fixpoint next_steps_of (tr : list (Z * Z)) (t : Z) (n : nat) : list Z :=
-  match n with
-  | O => []
-  | S n' => match tr with
-            | [] => []
-            | (t', cd) :: r => if t' =? t then cd :: next_steps_of r t n' else next_steps_of r t n
-            end
-  end.
-Fixpoint scan_C05 (c : lcase) (tr : list (Z * Z)) (idx : Z) : bool :=
-  match tr with
-  | [] => true
-  | (t, code) :: r =>
-      (if code / 64 =? 18 then
-         let T := code mod 64 in
-         let ls := last_site (i_trace c) (sc 16 (Z.to_nat T)) 1 idx 0 in
-         let lr := last_site (i_trace c) (sc 20 (Z.to_nat T)) 1 idx 0 in
-         if lr <? ls then
-           match next_steps_of r t 2 with
-           | [a; b] => (a =? sc 19 (Z.to_nat T)) && (b =? sc 20 (Z.to_nat T))
-           | [a] => a =? sc 19 (Z.to_nat T)
-           | _ => true
-           end
-         else true
-       else true) && scan_C05 c r (idx + 1)
-  end.
-Definition rethrows (c : lcase) : list Z := map arg (filter (fun e => tag e =? t_rt) (all_ev c)).
-Fixpoint nodup_z (l : list Z) : bool :=
-  match l with [] => true | x :: r => negb (existsb (Z.eqb x) r) && nodup_z r end.
-(* "the next wait that observes completion rethrows", on the implementation's log alone: a wait() that returns normally / a tryWait(k) that
-   returns true (for every k, 0 included) observed completion; if a capture of that set was complete (guard := Set store, site 16) before the
-   call's final outstanding load -- or, when the call performed no hooked load of its own, before the call -- and has not been consumed
-   (guard reset, site 20) by the time the call returns, the pending exception was NOT delivered by the call that had to deliver it. *)
-Fixpoint last_step_of (tr : list (Z * Z)) (t : Z) (pred : Z -> bool) (idx lo hi : Z) (acc : Z) : Z :=
-  match tr with
-  | [] => acc
-  | (t', cd) :: r => if hi <? idx then acc
-                     else last_step_of r t pred (idx + 1) lo hi (if (t' =? t) && (lo <=? idx) && pred cd then idx else acc)
-  end.
-Definition final_load_site (T : Z) (cd : Z) : bool :=
-  (cd mod 64 =? T) && let i := cd / 64 in ((i =? 33) || (i =? 35) || (i =? 38) || (i =? 41)).
-Definition pending_at_return (c : lcase) (t : Z) (w : Z * Z * Z * Z * Z) : bool :=
-  let '(T, cstamp, kind, r, wstamp) := w in
-  let normal := (kind =? t_w) || ((kind =? t_tw) && (r =? 1)) in
-  let obs := Z.max (cstamp + 1) (last_step_of (i_trace c) t (final_load_site T) 1 cstamp wstamp 0) in
-  let ls := last_site (i_trace c) (sc 16 (Z.to_nat T)) 1 obs 0 in
-  let lr := last_site (i_trace c) (sc 20 (Z.to_nat T)) 1 (wstamp + 1) 0 in
-  normal && (0 <? ls) && (lr <? ls).
-Fixpoint check_pending (c : lcase) (l : list (list ev)) (t : Z) : bool :=
-  match l with
-  | [] => true
-  | evs :: r => negb (existsb (pending_at_return c t) (waits_of evs [])) && check_pending c r (t + 1)
-  end.
-Definition check_C05 (c : lcase) : bool := nodup_z (rethrows c) && scan_C05 c (i_trace c) 1 && check_pending c (i_res c) 0.
-
-(* C47 on the implementation's log: with numThreads >= 1 the functor of a ForceQueuingTag submission does not run on the calling
-   thread before the scheduling call returns (a body event of that task earlier in the same thread's log) *)
-Fixpoint scan_C47 (l : list ev) (seen : list Z) : bool :=
-  match l with
-  | [] => true
-  | e :: r =>
-      if tag e =? t_b then scan_C47 r (arg e :: seen)
-      else if tag e =? t_sf then negb (existsb (Z.eqb (arg e / 64)) seen) && scan_C47 r seen
-      else if tag e =? t_bf then
-        let n := arg e mod 64 in let base := arg e / 64 / 64 in
-        negb (existsb (fun k => (base <=? k) && (k <? base + n)) seen) && scan_C47 r seen
-      else scan_C47 r seen
-  end.
-Definition check_C47 (c : lcase) : bool := (su_nthr (l_u c) <? 1) || forallb (fun l => scan_C47 l []) (i_res c).
-
-(* ---------- decisions of the real code under forced load (D) ---------- *)
-Record dcase := DC {
-  d_cls : Z (* 0 TaskSet 1 CTS light 2 CTS heavy 3 ThreadPool *); d_force : bool; d_skip : bool; d_recursive : bool; d_depth : Z; d_prlf2 : Z; d_bulk : Z;
-  d_out : Z; d_wr : Z; d_n : Z; d_plf : Z; d_lf : Z; d_canc : bool;          (* inputs read on the real objects just before the call *)
-  o_incall : Z; o_fout : Z; o_aout : Z; o_ran : Z }.
 
 Definition gen_code (d : dcase) : Z :=
   let ci := d_depth d <? c_kMaxInlineDepth in
@@ -225,8 +29,7 @@ Definition exp_class (d : dcase) : Z :=
 Definition d_agrees (d : dcase) : bool :=
   if 0 <? d_bulk d then true
   else (obs_class d =? exp_class d) || ((exp_class d =? 15) && d_canc d && (obs_class d =? 0)).
-(* C04 on the real code: a cancelled set runs nothing; C47: a ForceQueuingTag call with numThreads >= 1 runs nothing on the caller *)
-Definition d_check_C04 (d : dcase) : bool := negb (d_canc d) || (d_cls d =? 3) || ((o_incall d =? 0) && (o_ran d =? 0)).
-Definition d_check_C47 (d : dcase) : bool := negb (d_force d) || (d_n d <? 1) || (o_incall d =? 0).
-Definition d_bulk_ok (d : dcase) : bool :=
-  negb (0 <? d_bulk d) || negb (d_force d) || (d_n d <? 1) || ((o_incall d =? 0) && (o_ran d =? (if d_canc d then 0 else d_bulk d))).
+(* 0 decision agrees with gen_* and the property holds; 1 differs, holds; 2 the property fails on the real code *)
+Definition judge_C02_d (d : dcase) : Z := if negb (d_check_once d) then 2 else if d_agrees d then 0 else 1.
+Definition judge_C04_d (d : dcase) : Z := if negb (d_check_C04 d) then 2 else if d_agrees d then 0 else 1.
+Definition judge_C47_d (d : dcase) : Z := if negb (d_check_C47 d) || negb (d_bulk_ok d) then 2 else if d_agrees d then 0 else 1.
